@@ -1,15 +1,20 @@
 (* C03 -- property theorems only.  Statements are about the model of the factorised-tensor modules
    (Model/Factorized.v), for EVERY carrier F whose operations form a commutative ring, every order,
    every mode size and every rank. *)
-From Coq Require Import List Arith ZArith Ring Lia.
+From Coq Require Import List Arith ZArith Ring Lia Reals RealField.
 From TLV Require Import Base.Shape Base.PyList Base.Tensor Base.BigSum Base.Ops Model.Base Model.Factorized
   Proofs.FactorizedProofs Proofs.FactorizedProofs2 Proofs.FactorizedProofs3 Proofs.FactorizedProofs4
   Proofs.FactorizedProofs5 Proofs.FactorizedProofs6 Proofs.FactorizedProofs7 Proofs.FactorizedProofs8
-  Proofs.FactorizedProofs9 Proofs.FactorizedProofs10 Proofs.FactorizedProofs11.
+  Proofs.FactorizedProofs9 Proofs.FactorizedProofs10 Proofs.FactorizedProofs11 Proofs.FactorizedProofs12.
 Import ListNotations.
 
 Definition is_ring {F : Type} (Op : fops F) : Prop :=
   ring_theory (f0 Op) (f1 Op) (fadd Op) (fmul Op) (fsub Op) (fopp Op) (@eq F).
+(* the hypothesis is satisfiable: the integers (the carrier of the correspondence) and the reals *)
+Example C03_is_ring_Z : is_ring Zops.
+Proof. exact InitialRing.Zth. Qed.
+Example C03_is_ring_R : is_ring Rops.
+Proof. exact RTheory. Qed.
 
 (* ------------------------------------------------------------------ CP *)
 (* _validate_cp_tensor accepts exactly the well-formed (weights, factors) and reports (mode sizes, common column count) *)
@@ -294,3 +299,19 @@ Print Assumptions C03_ttm_validated.
 Example C03_tr_validated_hyps :
   validate_tr [mk [2; 1; 3] [1; 2; 3; 4; 5; 6]%Z; mk [3; 2; 2] (repeat 1%Z 12)] = Ok ([1; 2], [2; 3; 2]).
 Proof. reflexivity. Qed.
+
+(* PARAFAC2: whatever _validate_parafac2_tensor accepts (A a matrix, B square) is reconstructed to a tensor of shape
+   (I, max_i J_i, K) where (J_i, K) are the REPORTED slice shapes; block i = slice i on its first J_i rows, zero below *)
+Theorem C03_parafac2_validated : forall (F : Type) (Op : fops F), is_ring Op ->
+  (forall x y : F, feqb Op x y = true <-> x = y) ->
+  forall (w : option (tensor F)) (A B C : tensor F) (ps : list (tensor F)) (shps : list (list nat)) (R I : nat),
+  validate_parafac2 Op w [A; B; C] ps = Ok (shps, R) ->
+  shape A = [I; R] -> shape B = [R; R] -> w_ok F w R ->
+  exists t K, parafac2_to_tensor Op w [A; B; C] ps = Ok t /\ shape C = [K; R] /\ length ps = I /\ length shps = I /\
+    Forall (fun s => s = [nth 0 s 0; K]) shps /\
+    shape t = [I; fold_right Nat.max 0 (map (fun s => nth 0 s 0) shps); K] /\
+    forall i j k, i < I -> j < fold_right Nat.max 0 (map (fun s => nth 0 s 0) shps) -> k < K ->
+      get (f0 Op) t [i; j; k] =
+        if j <? nth 0 (nth i shps []) 0 then p2_entry F Op w A B C (nth i ps (mk [] [])) R R i j k else f0 Op.
+Proof. exact parafac2_validated. Qed.
+Print Assumptions C03_parafac2_validated.
